@@ -10,6 +10,7 @@ import Katib.Drv.C13
 import Katib.Drv.C20
 import Katib.Drv.C02
 import Katib.Drv.C12
+import Katib.Drv.C14
 import Katib.Oracle.Sim
 open Katib Katib.Drv
 
@@ -27,6 +28,7 @@ def handle (toks : List String) : String :=
   | "C20" :: r => handleC20 r
   | "C02" :: r => handleC02 r
   | "C12" :: r => handleC12 r
+  | "C14" :: r => handleC14 r
   | _ => "bad-op"
 
 /-- oracle verdict for one `op => observed-output` line -/
@@ -43,6 +45,7 @@ def handleOracle (toks out : List String) : String :=
   | "C20" :: r => oracleLineC20 r out
   | "C02" :: r => oracleLineC02 r out
   | "C12" :: r => oracleLineC12 r out
+  | "C14" :: r => oracleLineC14 r out
   | _ => "bad-op"
 
 def splitArrow (toks : List String) : List String × List String :=
